@@ -1,6 +1,7 @@
 package rules
 
 import (
+	"go/types"
 	"strings"
 
 	"mcvet/engine"
@@ -25,6 +26,7 @@ func checkC14(r *Report, p *Program) {
 	r15_2(r, p)
 	// no event is lost between the replay of the cache to a new handler and its registration (shared with C18)
 	r18_4(r, p)
+	sharedMapsAliased(r, p, "R14.7")
 }
 
 func handlerLiterals(p *Program) (out []struct {
@@ -762,6 +764,76 @@ func r14_6(r *Report, p *Program) {
 			c := sf("%s#%d", k, ord[k])
 			ord[k]++
 			r.Check(rule, c, p.InstrPos(cs.Instr), bad == "", "key version from configuration/discovery: "+E(key), "the informer map key takes its version from "+bad+": when that differs from the version the controller was configured with, the lookup returns nil and the event is dropped")
+		}
+	}
+}
+
+// sharedMapsAliased: the customize manager is given the controller's parentInformers / parentKinds maps by
+// reference and reads them later (related-object events → findRelatedParents). The maps handed over must be
+// the ones the constructor fills: made before the hand-over and not replaced afterwards.
+func sharedMapsAliased(r *Report, p *Program, rule string) {
+	r.Rule(rule, "newParentController / newDecoratorController: a map-typed field handed to NewCustomizeManager was assigned a made map before the call and is not assigned again afterwards")
+	r.Floor(rule, 2)
+	for _, key := range []string{"controller/composite.newParentController", "controller/decorator.newDecoratorController"} {
+		f := fn(r, p, rule, key)
+		if f == nil {
+			continue
+		}
+		for _, cs := range callsTo(f, false, "customize.NewCustomizeManager") {
+			ci := cs.Instr.(ssa.Instruction)
+			ok, why := true, ""
+			n := 0
+			for _, a := range cs.Common().Args {
+				if _, isMap := a.Type().Underlying().(*types.Map); !isMap {
+					continue
+				}
+				n++
+				if c, isC := a.(*ssa.Const); isC && c.IsNil() {
+					ok, why = false, "a nil map is handed to the customize manager"
+					continue
+				}
+				if _, isMk := engine.ResolveLocal(a).(*ssa.MakeMap); isMk {
+					// a local map: it must be the one stored in / used by the controller — any later MakeMap stored to a field of the same type is a replacement
+					continue
+				}
+				u, isLoad := a.(*ssa.UnOp)
+				if !isLoad {
+					continue
+				}
+				fa, isFA := u.X.(*ssa.FieldAddr)
+				if !isFA {
+					continue
+				}
+				fname := fieldName(fa)
+				// stores to the same field of the same object
+				var before, after int
+				for _, b := range f.Blocks {
+					for _, in := range b.Instrs {
+						st, isS := in.(*ssa.Store)
+						if !isS {
+							continue
+						}
+						fa2, isFA2 := st.Addr.(*ssa.FieldAddr)
+						if !isFA2 || fieldName(fa2) != fname || !engine.SameValue(fa2.X, fa.X) {
+							continue
+						}
+						if (engine.Query{Fn: f, From: []engine.Point{engine.After(ci)}, Target: func(x ssa.Instruction) bool { return x == in }}).Find() != nil {
+							after++
+						} else {
+							before++
+						}
+					}
+				}
+				if after > 0 {
+					ok, why = false, "the field ."+fname+" is assigned again after it was handed to the customize manager: the manager keeps the old (empty or nil) map and never sees what the controller fills in — related-object events find no parents"
+				} else if before == 0 {
+					ok, why = false, "the field ."+fname+" has not been assigned when it is handed to the customize manager (nil map)"
+				}
+			}
+			if n == 0 {
+				ok, why = false, "no map is handed to the customize manager"
+			}
+			r.Check(rule, FK(f)+"→NewCustomizeManager[maps-aliased]", p.InstrPos(ci), ok, "the maps handed over are the ones that get filled", why)
 		}
 	}
 }
